@@ -81,8 +81,8 @@ Lookup(c, id) == LET hit == {i \in 1..Len(TableOf(c)) : TableOf(c)[i][1] = id} I
 TableRight(c) == \A p \in AllPos(Stage(c, 3)) :
                    Stage(c, 3)[p[1]][p[2]].k = "label" => Lookup(c, Stage(c, 3)[p[1]][p[2]].lbl) = NextOpOff(Stage(c, 3), p)
 \* resolver: every label stands directly in front of the op it was made for, and nothing but labels was added
-RECURSIVE Strip(_)
-Strip(r) == IF r = <<>> THEN <<>> ELSE IF Head(r).k = "label" THEN Strip(Tail(r)) ELSE <<Head(r)>> \o Strip(Tail(r))
+IsNoLabel(e) == e.k # "label"
+Strip(r) == SelectSeq(r, IsNoLabel)     \* (not recursive: Init is evaluated on TLC's main thread, whose stack is small)
 ResolverStatic(c) ==
   LET D0 == Cases[c].D0  D1 == Cases[c].D1 IN
   IF Len(D0) # Len(D1) THEN "tables"
